@@ -33,9 +33,29 @@ func init() {
 	vpRegister("hColl", hColl)
 }
 
+// universe entries 8..71 are generated strings "u08".."u71" with concrete two-byte collation keys {0x20, 3*i+1}
+// (fan-out bases); entries 0..7 get symbolic keys.
+const collUniverseSize = 72
+
+func collString(u int) string {
+	if u < len(collUniverse) {
+		return collUniverse[u]
+	}
+	return string([]byte{'u', byte('0' + u/10), byte('0' + u%10)})
+}
+
+func collIndex(s string) int {
+	for i := 0; i < collUniverseSize; i++ {
+		if collString(i) == s {
+			return i
+		}
+	}
+	return -1
+}
+
 type collEnv struct {
-	fkey    [8][]byte // F(universe[i]) once defined
-	defined [8]bool
+	fkey    [collUniverseSize][]byte // F(universe[i]) once defined
+	defined [collUniverseSize]bool
 	kmode   int
 }
 
@@ -43,9 +63,17 @@ type collEnv struct {
 func (e *collEnv) define(spec int) int {
 	u := spec & 15
 	fl := spec >> 4
+	if spec&(1<<20) != 0 {
+		u = spec & 0xff // generated entry with a concrete key
+	}
 	if !e.defined[u] {
 		e.defined[u] = true
-		f := vpBytes(fl)
+		var f []byte
+		if u >= len(collUniverse) {
+			f = []byte{0x20, byte(3*u + 1)}
+		} else {
+			f = vpBytes(fl)
+		}
 		// the collator tells the strings apart; K1 = proper-prefix relation between two keys
 		bad := false
 		for j := range e.fkey {
@@ -58,7 +86,7 @@ func (e *collEnv) define(spec int) int {
 			vpAssume(!bad)
 		}
 		e.fkey[u] = f
-		vpCollDefine(collUniverse[u], f)
+		vpCollDefine(collString(u), f)
 	}
 	return u
 }
@@ -76,11 +104,8 @@ func properPrefixRel(a, b []byte) bool {
 func hkColl[K chars | []rune](e *collEnv, conv func(string) K, back func(K) string) *hk[K] {
 	lv := lvCollate()
 	idx := func(k K) int {
-		s := back(k)
-		for i, u := range collUniverse {
-			if u == s {
-				return i
-			}
+		if i := collIndex(back(k)); i >= 0 {
+			return i
 		}
 		vpFail("C08 a key outside the universe was returned: the original string was not preserved")
 		return 0
@@ -93,8 +118,8 @@ func hkColl[K chars | []rune](e *collEnv, conv func(string) K, back func(K) stri
 			return vpTreeState{tt.root, tt.size, lv}
 		},
 		newTree: func() Tree[K, uint64] { return NewCollationSortedTree[K, uint64]() },
-		newKey:  func(spec int) K { return conv(collUniverse[e.define(spec)]) },
-		concKey: func(spec int) K { return conv(collUniverse[e.define(spec)]) },
+		newKey:  func(spec int) K { return conv(collString(e.define(spec))) },
+		concKey: func(spec int) K { return conv(collString(e.define(spec | 1<<20))) },
 		clone:   func(k K) K { return conv(back(k)) },
 		eq:      func(a, b K) bool { return back(a) == back(b) },
 		less:    func(a, b K) bool { return vpLessBytes(e.fkey[idx(a)], e.fkey[idx(b)]) },
